@@ -187,6 +187,21 @@ def emitted : Parser → List Nat → List Function
 
 def funTag (f : Function) : String := ((functionTok f).splitOn " ").headD "?"
 
+/-- the functions whose outcome each step-level property specifies (mirrors FOOTPRINT in bin/check) -/
+def specifiedFuns : String → List String
+  | "C04" => ["print", "rep", "so", "si", "gzd4", "g1d4"]
+  | "C05" => ["bs", "cr", "ht", "cht", "cbt", "cuu", "cud", "cuf", "cub", "cnl", "cpl", "vpr", "cha", "cup", "vpa",
+              "lf", "nel", "ri", "decstbm", "decset", "decrst"]
+  | "C06" => ["lf", "nel", "ri", "su", "sd", "il", "dl", "decstbm"]
+  | "C07" => ["ed", "el", "ech", "ich", "dch", "decaln"]
+  | "C08" => ["sgr"]
+  | "C09" => ["print", "cr", "lf"]
+  | "C16" => ["decset", "decrst"]
+  | "C17" => ["decsc", "decrc", "scosc", "scorc", "decset", "decrst", "decstr"]
+  | "C18" => ["ht", "cht", "cbt", "hts", "tbc", "ctc"]
+  | "C19" => ["ris"]
+  | _ => []
+
 def finishOp (d : D) (k : Nat) (op : Op) (res : Res) (next : Option Vt) : IO D := do
   let some inst := getInst d k | mismatch d s!"op on unknown instance {k}"
   let prev := inst.st
@@ -202,11 +217,29 @@ def finishOp (d : D) (k : Nat) (op : Op) (res : Res) (next : Option Vt) : IO D :
     -- implementation panicked
     let d := { d with panicsImpl := d.panicsImpl + 1 }
     let d ← (if model.isSome then mismatchC d ["panic"] "impl=PANIC model=ok" else pure d)
+    -- a panic where the (proved) model returns normally is a failure of totality (C01, C02) and of
+    -- the property that specifies the outcome of this very call: every function the call executes
+    -- is one the property's statement covers (`specifiedFuns`, the same attribution bin/check uses
+    -- for correspondence mismatches), or - C10 - it is a resize the property speaks about
+    let applies : Bool := match model with
+      | some (m, mch) =>
+        if op.kind = .resize then
+          d.prop == "C10" &&
+            (Spec.checkStep d.prop { prev := prev, next := m, funs := [], kind := .resize, input := [],
+                                     cols := op.cols, rows := op.rows, ch := mch.map (·.lines),
+                                     sb := mch.map (·.scrollback), inst := inst }).any
+              (fun v => match v with | .pass nt => nt | .fail _ => true)
+        else
+          !funs.isEmpty && (funs.map funTag).all (fun t => (specifiedFuns d.prop).contains t)
+      | none => false
     let d ← (if d.prop == "C01" ∨ d.prop == "C02" then do
         let d ← report d "SPECFAIL" s!"what=panic op={d.lastOp}"
         pure { d with specfails := d.specfails + 1 }
+      else if applies then do
+        let d ← report d "SPECFAIL" s!"what=panic-where-the-property-specifies-the-outcome op={d.lastOp}"
+        pure { d with specfails := d.specfails + 1 }
       else pure d)
-    pure (setInst d k { inst with dead := true })
+    pure (setInst d k { inst with dead := true, diedOn := op.input })
   | some next =>
     let d ← (match model with
       | none => mismatchC d ["panic"] "impl=ok model=PANIC"
